@@ -32,7 +32,7 @@ import (
 func init() {
 	run.Register(&run.Check{
 		ID: "C17", Title: "Layout succeeds with finite geometry for every compilable diagram",
-		LevelText: "Exploration: generated compilable diagrams (gen.Diagram: containers ≤4 deep, all shapes, directions, label/icon positions, dimensions, 3d/multiple, grids, sequence diagrams, constant nears, class/sql_table, markdown/code/latex, arrowheads; half of them with hostile names: backtick, ${, quotes, backslashes, newlines, dots, arrows, RTL/astral/combining), a systematic hostile-symbol × position matrix and compilable repository scripts are laid out by the real pipeline with dagre and with ELK in crash-isolated workers; the monitor refutes on panic, worker death, layout/export/render error, nil or non-finite positions, negative or non-finite sizes, routes with fewer than two finite points.",
+		LevelText:        "Exploration: generated compilable diagrams (gen.Diagram: containers ≤4 deep, all shapes, directions, label/icon positions, dimensions, 3d/multiple, grids, sequence diagrams, constant nears, class/sql_table, markdown/code/latex, arrowheads; half of them with hostile names: backtick, ${, quotes, backslashes, newlines, dots, arrows, RTL/astral/combining), a systematic hostile-symbol × position matrix and compilable repository scripts are laid out by the real pipeline with dagre and with ELK in crash-isolated workers; the monitor refutes on panic, worker death, layout/export/render error, nil or non-finite positions, negative or non-finite sizes, routes with fewer than two finite points.",
 		Technique:        "runtime monitoring: totality oracle (panic / error / worker death) plus finiteness predicates over the laid-out graph and exported diagram, both bundled engines",
 		DesignRef:        "§4 C17",
 		Rule:             "cases: gen.Diagram programs (default, hostile, elk-only features, engine-undeclared features), hostile-symbol matrix, compilable corpus scripts; each under dagre or ELK; distinct by sha256(engine+text); non-trivial when the program compiled, layout ran on ≥2 objects and every finiteness predicate was evaluated",
@@ -76,6 +76,22 @@ func genC17(seed int64, tier string, emit func(run.Case)) {
 				id++
 				emit(run.MkCase(fmt.Sprintf("m%s%04d", eng[:1], id), eng+"/matrix", layCase{Text: t, Engine: eng, Src: "matrix"}))
 			}
+		}
+	}
+	// escape-like names (what a JS string/template literal would interpret; with a double quote the
+	// id is rendered single-quoted, i.e. with a raw backslash) and the witnesses of the
+	// recorded findings as sentinels: if the way they fail changes, the signature changes
+	for _, eng := range []string{"dagre", "elk"} {
+		for _, s := range []string{"\\1", "\\x", "\\u12", "\\x\"", "\\1\"", "\\u\"z", "\\\"", "\\`", "${", "${1+1}", "\\${", "\\", "\\\\", "\r", "\u2028"} {
+			id++
+			emit(run.MkCase(fmt.Sprintf("x%s%04d", eng[:1], id), eng+"/matrix", layCase{Text: gen.Quote("a"+s) + " -> " + gen.Quote(s+"b") + "\n", Engine: eng, Src: "matrix"}))
+		}
+		if eng == "elk" && tier != "thorough" {
+			continue
+		}
+		for _, t := range []string{"shape: sequence_diagram\ns -> k.p.k\n", "x: {\n shape: sequence_diagram\n h; e\n \"q.n\"\n g: {i: {e -> \"q.n\"}}\n}\n"} {
+			id++
+			emit(run.MkCase(fmt.Sprintf("s%s%04d", eng[:1], id), eng+"/sentinel", layCase{Text: t, Engine: eng, Src: "sentinel"}))
 		}
 	}
 	layGenCases(seed, tier, 17, 330, 70, 40, c17Opts, emit)
